@@ -82,8 +82,8 @@ def enc_item(it) -> str:
         tz = it[2] if len(it) > 2 else None
         tzs = '_' if tz is None else str(tz)
         if t == 't':
-            return f't:2000/{dt_seconds(2000, 1, 1, *it[1])}/{tzs}'
-        return f'{t}:{it[1][0]}/{dt_seconds(*it[1])}/{tzs}'
+            return f't:{dt_seconds(2000, 1, 1, *it[1])}/{tzs}'
+        return f'{t}:{dt_seconds(*it[1])}/{tzs}'
     if t == 'P':
         return f'P:{it[1]}/{it[2]}'
     if t in 'YS':
@@ -580,6 +580,14 @@ def selftest_numeric(run: Run) -> None:
             b = rand_item(rng, 'f')[1]
         lines.append(f'k=C a={enc_D(a)} b={enc_D(b)}')
         expect.append(('C', 'T' if math.isclose(a, b, rel_tol=1e-7, abs_tol=0.0) else 'F'))
+    for _ in range(run.scale(300, 3000)):
+        # the model's `_year` (C11's calendar) against Python's datetime and the library's Date10._year
+        d = pydt.datetime(rng.randrange(1, 10000), 1, 1) + pydt.timedelta(
+            seconds=rng.choice([0, 1, -1, 86399, 86400]) + 86400 * rng.choice([0, 0, 58, 59, 60, 364, 365]))
+        if not (1 <= d.year <= 9999):
+            continue
+        lines.append(f'k=Y t={int((d - pydt.datetime(1, 1, 1)).total_seconds())}')
+        expect.append(('Y', str(d.year)))
     answers = run.driver('C07', lines)
     for ln, (kind, exp), ans in zip(lines, expect, answers):
         got = parse_answer(ans)[0]
@@ -587,7 +595,7 @@ def selftest_numeric(run: Run) -> None:
             got = got.split(';')[0]
             if exp == '0/1':
                 exp = '0/1'
-        run.stats.count('selftest:' + ('rounding' if kind == 'R' else 'isclose'))
+        run.stats.count('selftest:' + {'R': 'rounding', 'C': 'isclose', 'Y': 'year'}[kind])
         if got != exp:
             run.disagree(Disagreement(ln, exp, got, what='numeric-substrate:' + kind, site='CPython float / math.isclose'))
 
@@ -670,7 +678,7 @@ REP_ITEMS = [('i', 1), ('d', '1.5'), ('f', 2.0), ('g', 2.0), ('s', 'a'), ('u', '
              ('q', '', '', 'a'), ('D', (2000, 1, 1)), ('T', (2000, 1, 1, 0, 0, 0)), ('t', (0, 0, 0)), ('P', 1, 1),
              ('Y', 1), ('S', 1), ('x', (65,)), ('y', (65,))]
 REP_LEAN = ['.int 1', '.dec (3 / 2)', '.dbl (.fin 2)', '.flt (.fin 2)', '.str [97]', '.ua [97]', '.bool true',
-            '.uri [97]', '.qn [] [] [97]', '.date ⟨2000, 5, none⟩', '.dtm ⟨2000, 5, none⟩', '.time ⟨2000, 5, none⟩', '.dur 1 1', '.ymd 1', '.dtd 1',
+            '.uri [97]', '.qn [] [] [97]', '.date ⟨5, none⟩', '.dtm ⟨5, none⟩', '.time ⟨5, none⟩', '.dur 1 1', '.ymd 1', '.dtd 1',
             '.hex [65]', '.b64 [65]']
 
 
@@ -724,7 +732,7 @@ def body(run: Run) -> int:
     run.assumptions += [
         'untypedAtomic / node string values are drawn from a declared lexical fragment (plain decimal literals, NaN, '
         'INF, -INF, true/false, words); outside it the driver answers UNSUPPORTED and the case is skipped (counted)',
-        'dates/times: years 1..9999, explicit timezone optional (missing = UTC: no implicit timezone is set in the context; C11 finding F11n), payload = (local year, local seconds, offset) computed by the harness with Python datetime',
+        'dates/times: years 1..9999, explicit timezone optional (missing = UTC: no implicit timezone is set in the context; C11 finding F11n), payload = (local seconds, offset); the local year is computed in the model by the calendar of C11's specification and cross-checked against Python datetime on every run',
         'durations have whole seconds; xs:float values are binary32-representable',
         'default collation = Unicode codepoint collation']
     run.stats.extra['tables'] = translate_tables(run)
